@@ -65,7 +65,7 @@ PLAN = {
  'C11_r2m2': [('c11', 'api-dice_join')],
  'C12_r2m1': [('c12', 'step-dice_join')],
  'C12_r2m2': [('c12', 'step-jaccard_join')],
- 'C13_r2m1': [('c13', 'transpose-jaccard'), ('c01', 'core-JACCARD')],
+ 'C13_r2m1': [('c13', 'transpose-core-JACCARD'), ('c01', 'core-JACCARD')],
  'C13_r2m2': [('c13', 'transpose-overlap'), ('c02', 'api-overlap')],
  'C14_r2m1': [('c14', 'ed-size-tables')],
  'C14_r2m2': [('c14', 'ed-position-subset')],
